@@ -159,6 +159,7 @@ ghost var gFlowChecked bool
 ghost var gSpecsLen int
 ghost var gPolicies int
 func (ps *Spec) Validate() (err error)
+  flag recovers
   flag allocates
   requires ps != nil
   modifies gFlowChecked, gSpecsLen, gPolicies
